@@ -204,10 +204,14 @@ type pathInfo struct {
 	notes  []string
 	more   bool // further hypothesis calls were made but not recorded
 	failed bool // some hypothesised evaluation returned an error on this path
+	// fuzzy: the path has followed both sides of an integer comparison it could
+	// not decide (a loop bound that is not known): counters and list contents
+	// computed along it need not be reachable together with its other facts
+	fuzzy bool
 }
 
 func (p pathInfo) note(s string) pathInfo {
-	return pathInfo{calls: p.calls, notes: append(append([]string(nil), p.notes...), s), more: p.more, failed: p.failed}
+	return pathInfo{calls: p.calls, notes: append(append([]string(nil), p.notes...), s), more: p.more, failed: p.failed, fuzzy: p.fuzzy}
 }
 
 const maxPathCalls = 6
@@ -218,9 +222,9 @@ const maxConcreteList = 6
 func (p pathInfo) with(c hcall) pathInfo {
 	if len(p.calls) >= maxPathCalls {
 		// saturate: keeps the configuration space finite inside loops
-		return pathInfo{calls: p.calls, notes: p.notes, more: true, failed: p.failed}
+		return pathInfo{calls: p.calls, notes: p.notes, more: true, failed: p.failed, fuzzy: p.fuzzy}
 	}
-	n := pathInfo{calls: append(append([]hcall(nil), p.calls...), c), notes: p.notes, more: p.more, failed: p.failed}
+	n := pathInfo{calls: append(append([]hcall(nil), p.calls...), c), notes: p.notes, more: p.more, failed: p.failed, fuzzy: p.fuzzy}
 	return n
 }
 
@@ -287,6 +291,7 @@ type Exec struct {
 	caller AV
 	traceReturns bool
 	cli    bool // interpreting cmd/jpgo: library calls are modelled, not inlined
+	curFuzzy bool // the path being interpreted is fuzzy (see pathInfo)
 	truncP *bool // shared truncation flag of the rule's aggregate
 	tableMode bool // evaluating the function-table constructor: maps keep their constant-keyed entries, loops are unrolled further
 	onExit func(status AV, h *Heap, p pathInfo) // os.Exit in the command (J-ABS)
@@ -813,7 +818,7 @@ func (a *activation) block(b *ssa.BasicBlock, prev *ssa.BasicBlock, fr *frame, h
 					fr.cnt = map[*ssa.Phi]int{}
 				}
 				fr.cnt[ph]++
-				if fr.cnt[ph] > x.widenAfter() || (fr.fuzzy && fr.cnt[ph] > 2 && !x.tableMode) {
+				if fr.cnt[ph] > x.widenAfter() || ((fr.fuzzy || p.fuzzy) && fr.cnt[ph] > 2 && !x.tableMode) {
 					nv = AV{k: 'N', pos: nv.n >= 1}
 				}
 			}
@@ -861,6 +866,7 @@ func (a *activation) instrs(b *ssa.BasicBlock, idx int, fr *frame, h *Heap, p pa
 			return
 		}
 		in := b.Instrs[i]
+		x.curFuzzy = p.fuzzy
 		if dbg := os.Getenv("EXEC_TRACEFN"); dbg != "" && fr.fn.Name() == dbg {
 			if i > idx {
 				if pv, ok := b.Instrs[i-1].(ssa.Value); ok {
@@ -886,6 +892,7 @@ func (a *activation) instrs(b *ssa.BasicBlock, idx int, fr *frame, h *Heap, p pa
 				if bo, ok := in.Cond.(*ssa.BinOp); ok {
 					if xv := x.val(fr, bo.X); xv.k == 'N' {
 						fr.fuzzy = true
+						p.fuzzy = true
 					}
 				}
 			}
@@ -1512,7 +1519,7 @@ func (x *Exec) indexAddr(in *ssa.IndexAddr, fr *frame, h *Heap) bool {
 			// children of a node: arity is Shape S2's obligation
 		case known && n < min:
 			x.ev("index-const", in, true, "")
-		case known && exact && !syntactic && fr.fuzzy:
+		case known && exact && !syntactic && (fr.fuzzy || x.curFuzzy):
 			// a computed index on a path that went both ways at an undecided integer
 			// test (an unknown loop bound): not a verdict; the path ends here
 			x.ev("index-computed", in, true, "")
